@@ -308,7 +308,14 @@ def attach(owner, attr, name=None, pre=None, post=None, on_exc=None, generator=F
     """
     if os.environ.get(GUARD) != "1":
         raise RuntimeError(f"monitors attach only under {GUARD}=1")
-    raw = owner.__dict__[attr] if isinstance(owner, type) else getattr(owner, attr)
+    try:
+        raw = owner.__dict__[attr] if isinstance(owner, type) else getattr(owner, attr)
+    except (KeyError, AttributeError):
+        # An internal helper this monitor hooks is gone (renamed, inlined): that is a refactoring, not a violation.
+        # The monitor is skipped and counted; quotas that need it then make the run inconclusive, never red.
+        if RUN is not None:
+            RUN.extra[f"monitor-unavailable:{name or attr}"] += 1
+        return None
     is_static = isinstance(raw, staticmethod)
     is_class = isinstance(raw, classmethod)
     orig = raw.__func__ if (is_static or is_class) else raw
@@ -414,3 +421,11 @@ def monitor_table(counters):
         mon, _, what = k.rpartition("|")
         tab[mon][what] = v
     return {k: tab[k] for k in sorted(tab)}
+
+
+def opt(owner, attr):
+    """owner.attr, or None when a refactoring removed it (line tracing then just skips the entry)."""
+    try:
+        return owner.__dict__[attr] if isinstance(owner, type) and attr in owner.__dict__ else getattr(owner, attr)
+    except AttributeError:
+        return None
